@@ -76,7 +76,8 @@ def expmv(f, v, t=1., tol=1e-12, ncv=10, hermitian=False, normalize=False, retur
             Further parameters that are passed to :func:`expand_krylov_space` and :func:`add`.
     """
     backend = v.config.backend
-    ncv, ncv_max = max(1, ncv), 30  # Krylov space parameters; its true maximal dimension shows up as happy breakdown
+    ncv_max = 30  # Krylov space parameters; its true maximal dimension shows up as happy breakdown
+    ncv = min(max(1, ncv), ncv_max)
     t_now, t_out = 0, abs(t)
     sgn = t / t_out if t_out > 0 else 0
     tau = t_out  # initial quess for a time-step
